@@ -12,8 +12,10 @@ pub fn case(i: u64, seed: u64) -> Scenario {
     let mut k = i;
     let lead = (k % 15) as i32 - 7;
     k /= 15;
-    let lat = [0u16, 5, 10, 20, 35, 50, 75, 100][(k % 8) as usize];
-    k /= 8;
+    // up to 100 ms the replies to a quality report arrive before the next one is sent (200 ms interval);
+    // 130 and 250 ms have one or more reports in flight
+    let lat = [0u16, 5, 10, 20, 35, 50, 75, 100, 130, 250][(k % 10) as usize];
+    k /= 10;
     let fps = [60u16, 30, 120][(k % 3) as usize];
     k /= 3;
     let delay = [0u8, 2][(k % 2) as usize];
@@ -43,7 +45,7 @@ pub fn case(i: u64, seed: u64) -> Scenario {
     sc.notify_ms = 3000;
     sc
 }
-pub const NCASES: u64 = 15 * 8 * 3 * 2;
+pub const NCASES: u64 = 15 * 10 * 3 * 2;
 
 pub fn eval(sc: &Scenario) -> CaseResult {
     let mut opts = RunOpts::default();
